@@ -109,10 +109,11 @@ async def direct(world, steps) -> None:
             world.offer_incoming()
         elif do == 'remove':
             # what Reactor.reload() / shutdown() do with a neighbour which is no longer configured
-            world.log('teardown', code=3)
+            world.log('remove')
             getattr(world.peer, st.get('how', 'remove'))()
             world.forget_remote()
         elif do == 'readd':
+            world.log('readd')
             world.readd_peer()
         elif do == 'refuse':
             world.connect_plan += ['fail'] * st.get('n', 1)
@@ -339,8 +340,13 @@ def all_scenarios(tier: str, seed: int) -> list:
     return sc
 
 
-def run_family(ck: Check, scenarios, prefix: str, label: str) -> None:
-    """Execute scenarios, let TLC judge, report the clauses whose name starts with `prefix`."""
+def run_family(ck: Check, scenarios, prefix: str, label: str, chunk: int = 2500) -> None:
+    """Execute scenarios, let TLC judge, report the clauses whose name starts with `prefix` (in chunks: one TLC run reads
+    the whole log it is given)."""
+    if len(scenarios) > chunk:
+        for i in range(0, len(scenarios), chunk):
+            run_family(ck, scenarios[i : i + chunk], prefix, f'{label}-{i // chunk}', chunk)
+        return
     lines = []
     meta = {}
     for tid, (name, steps, kw) in enumerate(scenarios):
@@ -479,6 +485,10 @@ def script_to_steps(script: list, coalesce: bool) -> list:
             steps.append({'do': 'incoming'})
         elif do == 'refuse':
             steps.append({'do': 'refuse', 'n': 1})
+        elif do == 'remove':
+            steps.append({'do': 'remove', 'how': 'remove'})
+        elif do == 'readd':
+            steps.append({'do': 'readd'})
         nxt = ev[k + 1]['do'] if k + 1 < len(ev) else ''
         if not (coalesce and not handshake and nxt not in ('', 'tick', 'refuse') and do != 'refuse'):
             steps.append({'do': 'sleep', 'ms': 5})      # let the real system run to its next waiting point
@@ -503,10 +513,27 @@ def _pl_enumerate(ck: Check, budget: int, ticks: str | None, label: str, cfghold
     return maximal
 
 
+def _pl_simulate(ck: Check, budget: int, n: int, seed: int) -> list:
+    """random behaviours of the closed model (tlc -simulate) where enumerating every state is too much: their environment scripts"""
+    d = tlc.workdir(f'pl-sim-{ck.prop}')
+    path = os.path.join(d, 'sim.cfg')
+    open(path, 'w').write(_pl_cfg(budget, False).replace('VIEW PView\n', ''))
+    walks = tlc.simulate('ExaPeerLoop', path, f'pl-sim-run-{ck.prop}', num=n, depth=70, seed=seed + 1, timeout=3000)
+    out = set()
+    for b in walks:
+        if b:
+            script = b[-1][2].get('script')
+            if isinstance(script, list) and script:
+                out.add(tuple((e['do'], e['cls'], e['hold'], e['ms'], e['code']) for e in script))
+    ck.notes.append(f'ExaPeerLoop budget {budget}: {len(walks)} random behaviours (tlc -simulate), {len(out)} distinct environment scripts')
+    tlc.cleanup(f'pl-sim-{ck.prop}')
+    return sorted(out)
+
+
 def peerloop_scripts(ck: Check, tier: str, seed: int) -> list:
     """(G) environment scripts generated by TLC from the closed model: one per distinct model state and last environment
     action, maximal ones only.  quick: every script of budget 1 (one counted environment action on top of the free
-    handshake and timer ticks) + a seeded sample of budget 2; thorough: every script of budget 2 + a seeded sample of budget 3."""
+    handshake and timer ticks) + a seeded sample of budget 2; thorough: every script of budget 1 (all ticks) and of budget 2 (three tick lengths), each in both concretisations, + a seeded sample of budget 3."""
     rnd = random.Random(seed)
     if tier == 'quick':
         chosen = _pl_enumerate(ck, 1, None, 'all ticks')
@@ -522,10 +549,10 @@ def peerloop_scripts(ck: Check, tier: str, seed: int) -> list:
         rest = sorted(set(more) - set(always))
         chosen += always + rnd.sample(rest, min(len(rest), 500))
     else:
-        chosen = _pl_enumerate(ck, 2, None, 'all ticks')
+        chosen = _pl_enumerate(ck, 1, None, 'all ticks') + _pl_enumerate(ck, 2, '{150, 3100, 61000}', 'ticks 150/3100/61000')
+        chosen = sorted(set(chosen))
         n_both = 0
-        more = _pl_enumerate(ck, 3, '{150, 3100, 61000}', 'ticks 150/3100/61000')
-        chosen += rnd.sample(more, min(len(more), 20000))
+        chosen += _pl_simulate(ck, 3, 3000, seed)
     # the same machine configured with hold-time 0 (no timers whatever the peer offers): every script of budget 1 / 2
     zero = _pl_enumerate(ck, 1 if tier == 'quick' else 2, None, 'configured hold time 0', cfghold=0)
     out = []
@@ -566,6 +593,7 @@ CONSTANTS
   NoHoldTimer = FALSE
   AnswerNotification = FALSE
   StarveAccepted = FALSE
+  WithRemove = FALSE
 VIEW TView
 INVARIANT Progress
 POSTCONDITION Reached
@@ -630,8 +658,8 @@ def conformance(ck: Check, lines: list, meta: dict, label: str) -> None:
     skipped = 0
     for tid, tl in by_tid.items():
         name, steps, kw = meta[tid]
-        if kw.get('passive') or any(st.get('do') in ('remove', 'readd') for st in steps):
-            skipped += 1        # not modelled: passive mode, neighbour removed and configured again
+        if kw.get('passive'):
+            skipped += 1        # not modelled: passive mode
             continue
         groups.setdefault(kw.get('hold', 9), {})[tid] = tl
     accepted = 0
